@@ -74,7 +74,7 @@ def laqgs_oracle(chk, cid, prog, eff, p, cfgname):
     fl.add('A.ncol', '$1->ncol', [10])
     fl.add('rowcnd', '$4', [0.0999, 0.1], ['<0.1', '>=0.1'])
     fl.add('colcnd', '$5', [0.0999, 0.1], ['<0.1', '>=0.1'])
-    fl.add('amax', '$6', [small * 0.5, small * 2, 1.0, large * 0.5, large * 2], ['<small', '>small', '1', '<large', '>large'])
+    fl.add('amax', '$6', [small * 0.5, small, small * 2, 1.0, large * 0.5, large, large * 2], ['<small', '=small', '>small', '1', '<large', '=large', '>large'])
     eng = r3.Engine(prog, f, fl.flags, callees=lambda n: False, eff=eff)
     eng.pure = mach_pure(p)
     leaves = eng.run()
